@@ -92,6 +92,24 @@ def _atom_value(e: ast.AST, env: dict[str, Any]) -> tuple[bool, bool]:
     t = _text(e)
     if t in env:
         return True, bool(env[t])
+    if isinstance(e, ast.Compare) and len(e.ops) > 1:
+        # a < b < c  ==  (a < b) and (b < c)
+        left = e.left
+        res = True
+        for op, right in zip(e.ops, e.comparators):
+            k, v = _atom_value(ast.Compare(left=left, ops=[op], comparators=[right]), env)
+            if not k:
+                return False, False
+            res = res and v
+            left = right
+        return True, res
+    if isinstance(e, ast.Compare) and len(e.ops) == 1 and isinstance(e.ops[0], (ast.In, ast.NotIn)):
+        kl, vl = _value(e.left, env)
+        if kl and isinstance(e.comparators[0], (ast.Tuple, ast.List, ast.Set)):
+            vals = [_value(x, env) for x in e.comparators[0].elts]
+            if all(k for k, _ in vals):
+                r = vl in [v for _, v in vals]
+                return True, r if isinstance(e.ops[0], ast.In) else not r
     if isinstance(e, ast.Compare) and len(e.ops) == 1 and type(e.ops[0]) in _CMP:
         kl, vl = _value(e.left, env)
         kr, vr = _value(e.comparators[0], env)
